@@ -70,8 +70,8 @@ def instantiate(c, k):
         mol = [1e9, -1e9, 1e7][k % 3]
     ustar = c["us"][0] / c["us"][1] * [1.0, 1.7][k % 2]
     if c["given"] in ("ustar", "both") or c["closure"] == "OAAHOC":
-        # physically consistent: the log-law factor kap |u| / ustar (= ln(zm/z0) + psi) between 2.5 and 8
-        speed = [2.5, 5.0, 8.0][(k // 16) % 3] * ustar / KAP
+        # physically consistent: ln(zm / z0) between 2.5 and 8, i.e. the log-law factor kap |u| / ustar = ln(zm/z0) + psi(zm/L)
+        speed = ([2.5, 5.0, 8.0][(k // 16) % 3] + psi_q(zm / mol)) * ustar / KAP
         if c["closure"] == "OAAHOC":
             speed = [2.5, 5.0, 8.0][(k // 16) % 3] * ustar ** 2 / (CM * CL * math.sqrt([0.5, 1.5][(k // 3) % 2]))
         um, vm = c["wind"][0] / c["wind"][2] * speed, c["wind"][1] / c["wind"][2] * speed
@@ -108,6 +108,8 @@ def run_config(chk, c, k, emitted):
     else:
         z0_eff = a["z0"]
         us_eff = absum * KAP / (math.log(zm / z0_eff) + psi_q(zm / a["mol"]))
+    if emitted["err"] == "none" and not (z0_eff is not None and 1e-6 * zm < z0_eff < 0.5 * zm and us_eff > 0):
+        raise MachineryError("the instantiation of %s is not physically consistent (z0 = %r, ustar = %r)" % (c, z0_eff, us_eff))
     h = 4.0 * zm
     zmx = None
     want_count = None
